@@ -56,309 +56,316 @@ def run(ck):
                  "expected one (None / n / (min, max)); check_signature raises on any message and "
                  "on differing names", 'ordering domain', 3)
 
-    # ------------------------------------------------------------------ R15.1
-    n = 0
-    for fi in prog.pkg_funcs(include_demo=True):
-        g = None
-        for x in own_nodes(fi.node):
-            if isinstance(x, ast.Assign) and any(isinstance(t, ast.Attribute) and t.attr == '_finalized'
-                                                 for t in x.targets) and is_const(x.value, True):
-                n += 1
-                g = g or ck.cfg(fi.fid, 'M0')
-                w = g.node_of(x)[0]
-                conn = [c for c in nodes_calling(g, '_finalize') if g.dominates(c, w)]
-                res = [c for c in nodes_calling(g, 'resolve')
-                       if '_resolver' in recv(node_calls(c, 'resolve')[0]) and g.dominates(c, w)]
-                ok = bool(conn) and bool(res)
-                # resolving may CREATE blocks ('_not_NAME' inverters, '_ctrl'): it has to be
-                # complete before the connection pass starts, or those blocks stay unwired
-                order = ok and all(any(g.dominates(r, c) for r in res) for c in conn) and not any(
-                    r.id in g.reachable_from(c) and w.id in g.reachable_from(r)
-                    for c in conn for r in nodes_calling(g, 'resolve'))
-                ck.ob(R1, f"{fi.fid} :: names resolved before the connection pass", order,
-                      "self._resolver.resolve() completes before self._finalize() starts: blocks "
-                      "created while resolving names ('_not_NAME', '_ctrl') are wired by the pass"
-                      if order else
-                      "the name resolver runs (also) after the connection pass: an inverter "
-                      "'_not_NAME' it creates for a filter is never connected (inputs stay names, "
-                      "no iconnections/oconnections) in the frozen circuit", fi, x)
-                ck.ob(R1, f"{fi.fid} :: {norm1(x)}", ok,
-                      "the flag is set after the connection pass and after the name resolution"
-                      if ok else
-                      ("the circuit is frozen without resolving registered names "
-                       "(self._resolver.resolve() does not precede the flag): event destinations "
-                       "and filter control blocks given by name stay strings in a finalized "
-                       "circuit, and resolving them later cannot create '_ctrl' any more"
-                       if conn else "the circuit is frozen before the connection pass completed"),
-                      fi, x)
-    ck.need(R1, n >= 1, "no `_finalized = True` site found")
-    init = circ.methods['__init__']
-    fin = circ.methods.get('finalize')
-    own(ck, R1, '_finalized', {init.fid: 'False', fin.fid if fin else '?': 'freeze'})
-
-    # ------------------------------------------------------------------ R15.2
-    wiring_rules(ck, R2)
-
-    # ------------------------------------------------------------------ R15.3
-    cnf = circ.methods.get('check_not_finalized')
-    ck.need(R3, cnf is not None, "Circuit.check_not_finalized not found")
-    g = ck.cfg(cnf.fid, 'M0')
-    r_fin = nodes_where(g, lambda n: isinstance(n.ast, ast.Raise) and g.has_guard(n, 'self._finalized', True),
-                        kinds=('stmt',))
-    r_err = nodes_where(g, lambda n: isinstance(n.ast, ast.Raise) and
-                        (g.has_guard(n, 'self._error', True) or g.has_guard(n, 'self._error is None', False)),
-                        kinds=('stmt',))
-    ck.ob(R3, cnf.fid, bool(r_fin) and bool(r_err),
-          "raises on a finalized circuit and on a circuit that was shut down"
-          if r_fin and r_err else "check_not_finalized does not raise in both cases", cnf, cnf.node)
-
-    def gated(fi, node, g):
-        gates = [c for c in nodes_calling(g, 'check_not_finalized') if g.dominates(c, node)]
-        return bool(gates)
-    nsites = 0
-    for fi in prog.pkg_funcs(include_demo=True):
-        g = None
-        for st in [x for x in own_nodes(fi.node) if isinstance(x, (ast.Assign, ast.AugAssign, ast.Delete))]:
-            for tgt, kind, stmt in subscript_writes(st):
-                base = norm(tgt.value)
-                if base.endswith('._blocks'):
-                    what = 'the block table'
-                elif base.endswith('.inputs') and fi.fid != 'simulator:Circuit._finalize':
-                    what = 'CBlock.inputs'
-                else:
-                    continue
-                nsites += 1
-                g = g or ck.cfg(fi.fid, 'M0')
-                node = g.node_of(stmt)[0]
-                ok = gated(fi, node, g)
-                ck.ob(R3, f"{fi.fid} :: {norm1(stmt)}", ok,
-                      f"{what} is modified only after check_not_finalized()" if ok else
-                      f"{what} can be modified in a finalized circuit (no check_not_finalized() "
-                      f"dominates the write)", fi, stmt)
-        for tgt_attr in ('persistent_dict',):
+    with ck.section('R15.1'):
+        # ------------------------------------------------------------------ R15.1
+        n = 0
+        for fi in prog.pkg_funcs(include_demo=True):
+            g = None
             for x in own_nodes(fi.node):
-                if isinstance(x, ast.Assign) and any(isinstance(t, ast.Attribute) and t.attr == tgt_attr
-                                                     for t in x.targets) and fi.name != '__init__':
+                if isinstance(x, ast.Assign) and any(isinstance(t, ast.Attribute) and t.attr == '_finalized'
+                                                     for t in x.targets) and is_const(x.value, True):
+                    n += 1
+                    g = g or ck.cfg(fi.fid, 'M0')
+                    w = g.node_of(x)[0]
+                    conn = [c for c in nodes_calling(g, '_finalize') if g.dominates(c, w)]
+                    res = [c for c in nodes_calling(g, 'resolve')
+                           if '_resolver' in recv(node_calls(c, 'resolve')[0]) and g.dominates(c, w)]
+                    ok = bool(conn) and bool(res)
+                    # resolving may CREATE blocks ('_not_NAME' inverters, '_ctrl'): it has to be
+                    # complete before the connection pass starts, or those blocks stay unwired
+                    order = ok and all(any(g.dominates(r, c) for r in res) for c in conn) and not any(
+                        r.id in g.reachable_from(c) and w.id in g.reachable_from(r)
+                        for c in conn for r in nodes_calling(g, 'resolve'))
+                    ck.ob(R1, f"{fi.fid} :: names resolved before the connection pass", order,
+                          "self._resolver.resolve() completes before self._finalize() starts: blocks "
+                          "created while resolving names ('_not_NAME', '_ctrl') are wired by the pass"
+                          if order else
+                          "the name resolver runs (also) after the connection pass: an inverter "
+                          "'_not_NAME' it creates for a filter is never connected (inputs stay names, "
+                          "no iconnections/oconnections) in the frozen circuit", fi, x)
+                    ck.ob(R1, f"{fi.fid} :: {norm1(x)}", ok,
+                          "the flag is set after the connection pass and after the name resolution"
+                          if ok else
+                          ("the circuit is frozen without resolving registered names "
+                           "(self._resolver.resolve() does not precede the flag): event destinations "
+                           "and filter control blocks given by name stay strings in a finalized "
+                           "circuit, and resolving them later cannot create '_ctrl' any more"
+                           if conn else "the circuit is frozen before the connection pass completed"),
+                          fi, x)
+        ck.need(R1, n >= 1, "no `_finalized = True` site found")
+        init = circ.methods['__init__']
+        fin = circ.methods.get('finalize')
+        own(ck, R1, '_finalized', {init.fid: 'False', fin.fid if fin else '?': 'freeze'})
+
+    with ck.section('R15.2'):
+        # ------------------------------------------------------------------ R15.2
+        wiring_rules(ck, R2)
+
+    with ck.section('R15.3'):
+        # ------------------------------------------------------------------ R15.3
+        cnf = circ.methods.get('check_not_finalized')
+        ck.need(R3, cnf is not None, "Circuit.check_not_finalized not found")
+        g = ck.cfg(cnf.fid, 'M0')
+        r_fin = nodes_where(g, lambda n: isinstance(n.ast, ast.Raise) and g.has_guard(n, 'self._finalized', True),
+                            kinds=('stmt',))
+        r_err = nodes_where(g, lambda n: isinstance(n.ast, ast.Raise) and
+                            (g.has_guard(n, 'self._error', True) or g.has_guard(n, 'self._error is None', False)),
+                            kinds=('stmt',))
+        ck.ob(R3, cnf.fid, bool(r_fin) and bool(r_err),
+              "raises on a finalized circuit and on a circuit that was shut down"
+              if r_fin and r_err else "check_not_finalized does not raise in both cases", cnf, cnf.node)
+
+        def gated(fi, node, g):
+            gates = [c for c in nodes_calling(g, 'check_not_finalized') if g.dominates(c, node)]
+            return bool(gates)
+        nsites = 0
+        for fi in prog.pkg_funcs(include_demo=True):
+            g = None
+            for st in [x for x in own_nodes(fi.node) if isinstance(x, (ast.Assign, ast.AugAssign, ast.Delete))]:
+                for tgt, kind, stmt in subscript_writes(st):
+                    base = norm(tgt.value)
+                    if base.endswith('._blocks'):
+                        what = 'the block table'
+                    elif base.endswith('.inputs') and fi.fid != 'simulator:Circuit._finalize':
+                        what = 'CBlock.inputs'
+                    else:
+                        continue
                     nsites += 1
                     g = g or ck.cfg(fi.fid, 'M0')
-                    node = g.node_of(x)[0]
+                    node = g.node_of(stmt)[0]
                     ok = gated(fi, node, g)
-                    ck.ob(R3, f"{fi.fid} :: {norm1(x)}", ok,
-                          "the storage is replaced only before finalisation" if ok else
-                          "the persistent storage can be replaced in a finalized circuit", fi, x)
-    ck.need(R3, nsites >= 3, "fewer gated mutators than confirmed by hand")
-    own(ck, R3, '_blocks', {init.fid: 'empty table'})
-    ab = circ.methods['addblock']
-    g = ck.cfg(ab.fid, 'M0')
-    ins = nodes_where(g, lambda n: any(norm(t.value) == 'self._blocks' for t, k, s in subscript_writes(n.ast))
-                      if n.kind == 'stmt' else False)
-    dup = nodes_where(g, lambda n: isinstance(n.ast, ast.Raise) and
-                      g.has_guard(n, 'blk.name in self._blocks', True), kinds=('stmt',))
-    ok = bool(ins) and bool(dup) and all(g.has_guard(i, 'blk.name in self._blocks', False) for i in ins) \
-        and all(norm(i.ast.targets[0].slice) == 'blk.name' and norm(i.ast.value) == 'blk' for i in ins)
-    ck.ob(R3, f"{ab.fid} :: duplicates refused", ok,
-          "a duplicate name raises before the insertion under blk.name" if ok else
-          "addblock can overwrite an existing block or registers it under another name", ab, ab.node)
-    cn = prog.func('block:CBlock.connect')
-    g = ck.cfg(cn.fid, 'M0')
-    twice = nodes_where(g, lambda n: isinstance(n.ast, ast.Raise) and g.has_guard(n, 'self.inputs', True),
-                        kinds=('stmt',))
-    empty = nodes_where(g, lambda n: isinstance(n.ast, ast.Raise) and
-                        g.has_guard(n, 'not args and not kwargs', True), kinds=('stmt',))
-    ws = nodes_where(g, lambda n: n.kind == 'stmt' and any(norm(t.value) == 'self.inputs'
-                                                          for t, k, s in subscript_writes(n.ast)))
-    ok = bool(twice) and bool(empty) and all(g.has_guard(w, 'self.inputs', False) for w in ws)
-    ck.ob(R3, f"{cn.fid} :: once, non-empty", ok,
-          "a second connect() and an empty connect() raise" if ok else
-          "connect() can be repeated or called without inputs", cn, cn.node)
+                    ck.ob(R3, f"{fi.fid} :: {norm1(stmt)}", ok,
+                          f"{what} is modified only after check_not_finalized()" if ok else
+                          f"{what} can be modified in a finalized circuit (no check_not_finalized() "
+                          f"dominates the write)", fi, stmt)
+            for tgt_attr in ('persistent_dict',):
+                for x in own_nodes(fi.node):
+                    if isinstance(x, ast.Assign) and any(isinstance(t, ast.Attribute) and t.attr == tgt_attr
+                                                         for t in x.targets) and fi.name != '__init__':
+                        nsites += 1
+                        g = g or ck.cfg(fi.fid, 'M0')
+                        node = g.node_of(x)[0]
+                        ok = gated(fi, node, g)
+                        ck.ob(R3, f"{fi.fid} :: {norm1(x)}", ok,
+                              "the storage is replaced only before finalisation" if ok else
+                              "the persistent storage can be replaced in a finalized circuit", fi, x)
+        ck.need(R3, nsites >= 3, "fewer gated mutators than confirmed by hand")
+        own(ck, R3, '_blocks', {init.fid: 'empty table'})
+        ab = circ.methods['addblock']
+        g = ck.cfg(ab.fid, 'M0')
+        ins = nodes_where(g, lambda n: any(norm(t.value) == 'self._blocks' for t, k, s in subscript_writes(n.ast))
+                          if n.kind == 'stmt' else False)
+        dup = nodes_where(g, lambda n: isinstance(n.ast, ast.Raise) and
+                          g.has_guard(n, 'blk.name in self._blocks', True), kinds=('stmt',))
+        ok = bool(ins) and bool(dup) and all(g.has_guard(i, 'blk.name in self._blocks', False) for i in ins) \
+            and all(norm(i.ast.targets[0].slice) == 'blk.name' and norm(i.ast.value) == 'blk' for i in ins)
+        ck.ob(R3, f"{ab.fid} :: duplicates refused", ok,
+              "a duplicate name raises before the insertion under blk.name" if ok else
+              "addblock can overwrite an existing block or registers it under another name", ab, ab.node)
+        cn = prog.func('block:CBlock.connect')
+        g = ck.cfg(cn.fid, 'M0')
+        twice = nodes_where(g, lambda n: isinstance(n.ast, ast.Raise) and g.has_guard(n, 'self.inputs', True),
+                            kinds=('stmt',))
+        empty = nodes_where(g, lambda n: isinstance(n.ast, ast.Raise) and
+                            g.has_guard(n, 'not args and not kwargs', True), kinds=('stmt',))
+        ws = nodes_where(g, lambda n: n.kind == 'stmt' and any(norm(t.value) == 'self.inputs'
+                                                              for t, k, s in subscript_writes(n.ast)))
+        ok = bool(twice) and bool(empty) and all(g.has_guard(w, 'self.inputs', False) for w in ws)
+        ck.ob(R3, f"{cn.fid} :: once, non-empty", ok,
+              "a second connect() and an empty connect() raise" if ok else
+              "connect() can be repeated or called without inputs", cn, cn.node)
 
-    # ------------------------------------------------------------------ R15.4
-    vb = circ.methods.get('_validate_blk')
-    ck.need(R4, vb is not None, "Circuit._validate_blk not found")
-    g = ck.cfg(vb.fid, 'M0')
-    p = vb.node.args.args[1].arg
-    inv = nodes_where(g, lambda n: any(norm(c.func) == 'cblocks.Not' for c in node_calls(n)))
-    ck.need(R4, len(inv) == 1, "_validate_blk: inverter creation site not recognised")
-    iv = inv[0]
-    notc = [c for c in node_calls(iv) if norm(c.func) == 'cblocks.Not'][0]
-    conn = [c for c in node_calls(iv, 'connect')]
-    ret_ok = isinstance(iv.ast, ast.Return)
-    if not conn and isinstance(iv.ast, ast.Assign) and len(iv.ast.targets) == 1 and \
-            isinstance(iv.ast.targets[0], ast.Name):
-        # `inv = Not(...)` followed by `return inv.connect(...)` / `inv.connect(...); return inv`
-        nm_ = iv.ast.targets[0].id
-        cn_ = nodes_where(g, lambda n: any(call_name(c) == 'connect' and recv(c) == nm_ for c in node_calls(n)))
-        if len(cn_) == 1 and g.dominates(iv, cn_[0]):
-            conn = [c for c in node_calls(cn_[0], 'connect')]
-            rets_ = [r for r in return_nodes(g) if g.dominates(cn_[0], r) or r is cn_[0]]
-            ret_ok = bool(rets_) and all(
-                r is cn_[0] or norm(r.ast.value) == nm_ for r in rets_)
-    ok = g.has_guard(iv, f'{p} in self._blocks', False) and \
-        g.has_guard(iv, f"{p}.startswith('_not_')", True) and \
-        any('[5:6]' in t for t, pol in g.guard_texts(iv))
-    ck.ob(R4, f"{vb.fid} :: inverter created only when absent", ok,
-          "created under: name starts with '_not_' (not '_not__'), and no block of that name "
-          "exists yet -- a second reference finds the first inverter" if ok else
-          "the inverter can be created although a block of that name exists (duplicate-name "
-          "error on the second reference), or for a name that is not a '_not_NAME' shortcut",
-          vb, iv.ast)
-    ok = [norm(a) for a in notc.args[:1]] == [p] and bool(conn) and \
-        [norm(a) for a in conn[0].args] in ([f"{p}.removeprefix('_not_')"], [f"{p}[5:]"]) and \
-        ret_ok and \
-        any(k.arg == '_reserved' and is_const(k.value, True) for k in notc.keywords)
-    ck.ob(R4, f"{vb.fid} :: inverter name and input", ok,
-          "Not(<looked-up name>, _reserved=True).connect(<name without '_not_'>) is returned"
-          if ok else "the inverter is registered under a different name or connected to the "
-          "wrong block", vb, iv.ast)
-    fb = nodes_where(g, lambda n: isinstance(n.ast, ast.Return) and
-                     norm(n.ast.value) == f'self.findblock({p})' and
-                     g.has_guard(n, f'isinstance({p}, str)', True), kinds=('stmt',))
-    ck.ob(R4, f"{vb.fid} :: names looked up", bool(fb),
-          "any other name is looked up with findblock() (KeyError for unknown names)" if fb else
-          "names are not resolved through findblock()", vb, vb.node)
-    foreign = nodes_where(g, lambda n: isinstance(n.ast, ast.Raise) and
-                          g.has_guard(n, f'{p} in self.getblocks()', False), kinds=('stmt',))
-    ck.ob(R4, f"{vb.fid} :: foreign blocks refused", bool(foreign),
-          "a block object that is not in the current circuit raises" if foreign else
-          "a block of another circuit is accepted", vb, vb.node)
-    const = nodes_where(g, lambda n: isinstance(n.ast, ast.Return) and
-                        norm(n.ast.value) == f'block.Const({p})' and
-                        g.has_guard(n, f'isinstance({p}, block.Block)', False), kinds=('stmt',))
-    ck.ob(R4, f"{vb.fid} :: constants wrapped", bool(const),
-          "a plain value becomes a Const" if const else "plain values are not wrapped in Const",
-          vb, vb.node)
+    with ck.section('R15.4'):
+        # ------------------------------------------------------------------ R15.4
+        vb = circ.methods.get('_validate_blk')
+        ck.need(R4, vb is not None, "Circuit._validate_blk not found")
+        g = ck.cfg(vb.fid, 'M0')
+        p = vb.node.args.args[1].arg
+        inv = nodes_where(g, lambda n: any(norm(c.func) == 'cblocks.Not' for c in node_calls(n)))
+        ck.need(R4, len(inv) == 1, "_validate_blk: inverter creation site not recognised")
+        iv = inv[0]
+        notc = [c for c in node_calls(iv) if norm(c.func) == 'cblocks.Not'][0]
+        conn = [c for c in node_calls(iv, 'connect')]
+        ret_ok = isinstance(iv.ast, ast.Return)
+        if not conn and isinstance(iv.ast, ast.Assign) and len(iv.ast.targets) == 1 and \
+                isinstance(iv.ast.targets[0], ast.Name):
+            # `inv = Not(...)` followed by `return inv.connect(...)` / `inv.connect(...); return inv`
+            nm_ = iv.ast.targets[0].id
+            cn_ = nodes_where(g, lambda n: any(call_name(c) == 'connect' and recv(c) == nm_ for c in node_calls(n)))
+            if len(cn_) == 1 and g.dominates(iv, cn_[0]):
+                conn = [c for c in node_calls(cn_[0], 'connect')]
+                rets_ = [r for r in return_nodes(g) if g.dominates(cn_[0], r) or r is cn_[0]]
+                ret_ok = bool(rets_) and all(
+                    r is cn_[0] or norm(r.ast.value) == nm_ for r in rets_)
+        ok = g.has_guard(iv, f'{p} in self._blocks', False) and \
+            g.has_guard(iv, f"{p}.startswith('_not_')", True) and \
+            any('[5:6]' in t for t, pol in g.guard_texts(iv))
+        ck.ob(R4, f"{vb.fid} :: inverter created only when absent", ok,
+              "created under: name starts with '_not_' (not '_not__'), and no block of that name "
+              "exists yet -- a second reference finds the first inverter" if ok else
+              "the inverter can be created although a block of that name exists (duplicate-name "
+              "error on the second reference), or for a name that is not a '_not_NAME' shortcut",
+              vb, iv.ast)
+        ok = [norm(a) for a in notc.args[:1]] == [p] and bool(conn) and \
+            [norm(a) for a in conn[0].args] in ([f"{p}.removeprefix('_not_')"], [f"{p}[5:]"]) and \
+            ret_ok and \
+            any(k.arg == '_reserved' and is_const(k.value, True) for k in notc.keywords)
+        ck.ob(R4, f"{vb.fid} :: inverter name and input", ok,
+              "Not(<looked-up name>, _reserved=True).connect(<name without '_not_'>) is returned"
+              if ok else "the inverter is registered under a different name or connected to the "
+              "wrong block", vb, iv.ast)
+        fb = nodes_where(g, lambda n: isinstance(n.ast, ast.Return) and
+                         norm(n.ast.value) == f'self.findblock({p})' and
+                         g.has_guard(n, f'isinstance({p}, str)', True), kinds=('stmt',))
+        ck.ob(R4, f"{vb.fid} :: names looked up", bool(fb),
+              "any other name is looked up with findblock() (KeyError for unknown names)" if fb else
+              "names are not resolved through findblock()", vb, vb.node)
+        foreign = nodes_where(g, lambda n: isinstance(n.ast, ast.Raise) and
+                              g.has_guard(n, f'{p} in self.getblocks()', False), kinds=('stmt',))
+        ck.ob(R4, f"{vb.fid} :: foreign blocks refused", bool(foreign),
+              "a block object that is not in the current circuit raises" if foreign else
+              "a block of another circuit is accepted", vb, vb.node)
+        const = nodes_where(g, lambda n: isinstance(n.ast, ast.Return) and
+                            norm(n.ast.value) == f'block.Const({p})' and
+                            g.has_guard(n, f'isinstance({p}, block.Block)', False), kinds=('stmt',))
+        ck.ob(R4, f"{vb.fid} :: constants wrapped", bool(const),
+              "a plain value becomes a Const" if const else "plain values are not wrapped in Const",
+              vb, vb.node)
 
-    # ------------------------------------------------------------------ R15.5
-    res = prog.cls('simulator:_BlockResolver')
-    reg, rsv = res.methods.get('register'), res.methods.get('resolve')
-    ck.need(R5, reg is not None and rsv is not None, "_BlockResolver.register/resolve not found")
-    g = ck.cfg(reg.fid, 'M0')
-    app = nodes_where(g, lambda n: any(call_name(c) == 'append' and '_unresolved' in recv(c)
-                                       for c in node_calls(n)))
-    chk = nodes_calling(g, '_check_type')
-    ok = len(app) == 1 and len(chk) == 1 and g.has_guard(app[0], 'isinstance(blk, str)', True) and \
-        g.has_guard(chk[0], 'isinstance(blk, str)', False)
-    if ok:
-        a = node_calls(app[0], 'append')[0].args[0]
-        ok = isinstance(a, ast.Tuple) and [norm(e) for e in a.elts] == ['obj', 'attr', 'block_type']
-    ck.ob(R5, reg.fid, ok, "a name is recorded as (obj, attr, type); an object is type-checked "
-          "at once" if ok else "register() loses a by-name reference or skips the type check",
-          reg, reg.node)
-    g = ck.cfg(rsv.fid, 'M0')
-    loop = [n for n in g.nodes if n.kind == 'for' and '_unresolved' in norm(n.ast.iter)]
-    sets = nodes_calling(g, 'setattr')
-    chk = nodes_calling(g, '_check_type')
-    clr = nodes_where(g, lambda n: any(call_name(c) == 'clear' and '_unresolved' in recv(c)
-                                       for c in node_calls(n)))
-    ok = len(loop) == 1 and len(sets) == 1 and len(chk) == 1 and len(clr) == 1 and \
-        g.dominates(chk[0], sets[0]) and g.dominates(loop[0], chk[0]) and \
-        clr[0].id not in g.reachable_from(g.nodes[[v for v, l in g.succ[loop[0].id] if l == 'iter'][0]],
-                                          avoid=[loop[0]])
-    if ok:
-        sa = node_calls(sets[0], 'setattr')[0]
-        tgt = [norm(e) for e in loop[0].ast.target.elts] if isinstance(loop[0].ast.target, ast.Tuple) else []
-        ok = len(tgt) == 3 and [norm(a) for a in sa.args[:2]] == tgt[:2]
-        blkv = norm(sa.args[2])
-        vals = ck.rdefs(rsv.fid, 'M0').value_exprs(sets[0], blkv)
-        ok = ok and all(not isinstance(v, str) and norm(v) == f"self._resolve_function(getattr({tgt[0]}, {tgt[1]}))"
-                        for v in vals) and bool(vals)
-    ck.ob(R5, rsv.fid, ok, "for every record: look up the name, type-check, store; then clear"
-          if ok else "resolve() does not replace every registered name by the block of that name",
-          rsv, rsv.node)
-    ci = circ.methods['__init__']
-    gi = ck.cfg(ci.fid, 'M0')
-    ok = any(isinstance(n.ast, ast.Assign) and norm(n.ast.targets[0]) == 'self._resolver' and
-             norm(n.ast.value) == '_BlockResolver(self._validate_blk)' for n in gi.nodes if n.kind == 'stmt') \
-        and any(isinstance(n.ast, ast.Assign) and norm(n.ast.targets[0]) == 'self.resolve_name' and
-                norm(n.ast.value) == 'self._resolver.register' for n in gi.nodes if n.kind == 'stmt')
-    ck.ob(R5, f"{ci.fid} :: resolver wiring", ok,
-          "names are resolved with _validate_blk (creates '_ctrl' / inverters on demand); "
-          "resolve_name is the resolver's register" if ok else
-          "the resolver is not wired to _validate_blk / resolve_name", ci, ci.node)
-    nreg = 0
-    for fi, call in call_sites(ck, 'resolve_name', include_demo=True):
-        nreg += 1
-        g = ck.cfg(fi.fid, 'M0')
-        node = g.node_of(call)[0]
-        ok = len(call.args) >= 2 and isinstance(call.args[1], ast.Constant) and \
-            isinstance(call.args[1].value, str)
-        why = "unrecognised call shape"
+    with ck.section('R15.5'):
+        # ------------------------------------------------------------------ R15.5
+        res = prog.cls('simulator:_BlockResolver')
+        reg, rsv = res.methods.get('register'), res.methods.get('resolve')
+        ck.need(R5, reg is not None and rsv is not None, "_BlockResolver.register/resolve not found")
+        g = ck.cfg(reg.fid, 'M0')
+        app = nodes_where(g, lambda n: any(call_name(c) == 'append' and '_unresolved' in recv(c)
+                                           for c in node_calls(n)))
+        chk = nodes_calling(g, '_check_type')
+        ok = len(app) == 1 and len(chk) == 1 and g.has_guard(app[0], 'isinstance(blk, str)', True) and \
+            g.has_guard(chk[0], 'isinstance(blk, str)', False)
         if ok:
-            obj, attr = norm(call.args[0]), call.args[1].value
-            assigned = nodes_where(g, lambda n: isinstance(n.ast, ast.Assign) and
-                                   norm(n.ast.targets[0]) == f"{obj}.{attr}" and g.dominates(n, node))
-            ns = nodes_where(g, lambda n: isinstance(n.ast, ast.Assign) and
-                             norm(n.ast.targets[0]) == obj and isinstance(n.ast.value, ast.Call)
-                             and norm(n.ast.value.func) == 'types.SimpleNamespace' and
-                             any(k.arg == attr for k in n.ast.value.keywords) and g.dominates(n, node))
-            ok = bool(assigned) or bool(ns)
-            why = (f"resolve_name({obj}, {attr!r}) follows the assignment of {obj}.{attr}" if ok else
-                   f"resolve_name({obj}, {attr!r}) names an attribute that this code did not "
-                   f"assign on {obj} (the resolver would read/patch the wrong attribute)")
-        ck.ob(R5, f"{fi.fid} :: {norm1(call)}", ok, why, fi, call)
-    ck.need(R5, nreg >= 4, "fewer resolve_name registrations than confirmed by hand")
-    # type restrictions of the registrations that the property names
-    ev = prog.func('block:Event.__init__')
-    calls = [c for f, c in call_sites(ck, 'resolve_name') if f is ev]
-    ok = bool(calls) and (len(calls[0].args) >= 3 and norm(calls[0].args[2]) == 'SBlock' or
-                          any(k.arg == 'block_type' and norm(k.value) == 'SBlock' for k in calls[0].keywords))
-    ck.ob(R5, f"{ev.fid} :: destination kind", ok,
-          "an event destination must be an SBlock" if ok else
-          "an event destination of the wrong kind is not refused", ev, calls[0] if calls else ev.node)
+            a = node_calls(app[0], 'append')[0].args[0]
+            ok = isinstance(a, ast.Tuple) and [norm(e) for e in a.elts] == ['obj', 'attr', 'block_type']
+        ck.ob(R5, reg.fid, ok, "a name is recorded as (obj, attr, type); an object is type-checked "
+              "at once" if ok else "register() loses a by-name reference or skips the type check",
+              reg, reg.node)
+        g = ck.cfg(rsv.fid, 'M0')
+        loop = [n for n in g.nodes if n.kind == 'for' and '_unresolved' in norm(n.ast.iter)]
+        sets = nodes_calling(g, 'setattr')
+        chk = nodes_calling(g, '_check_type')
+        clr = nodes_where(g, lambda n: any(call_name(c) == 'clear' and '_unresolved' in recv(c)
+                                           for c in node_calls(n)))
+        ok = len(loop) == 1 and len(sets) == 1 and len(chk) == 1 and len(clr) == 1 and \
+            g.dominates(chk[0], sets[0]) and g.dominates(loop[0], chk[0]) and \
+            clr[0].id not in g.reachable_from(g.nodes[[v for v, l in g.succ[loop[0].id] if l == 'iter'][0]],
+                                              avoid=[loop[0]])
+        if ok:
+            sa = node_calls(sets[0], 'setattr')[0]
+            tgt = [norm(e) for e in loop[0].ast.target.elts] if isinstance(loop[0].ast.target, ast.Tuple) else []
+            ok = len(tgt) == 3 and [norm(a) for a in sa.args[:2]] == tgt[:2]
+            blkv = norm(sa.args[2])
+            vals = ck.rdefs(rsv.fid, 'M0').value_exprs(sets[0], blkv)
+            ok = ok and all(not isinstance(v, str) and norm(v) == f"self._resolve_function(getattr({tgt[0]}, {tgt[1]}))"
+                            for v in vals) and bool(vals)
+        ck.ob(R5, rsv.fid, ok, "for every record: look up the name, type-check, store; then clear"
+              if ok else "resolve() does not replace every registered name by the block of that name",
+              rsv, rsv.node)
+        ci = circ.methods['__init__']
+        gi = ck.cfg(ci.fid, 'M0')
+        ok = any(isinstance(n.ast, ast.Assign) and norm(n.ast.targets[0]) == 'self._resolver' and
+                 norm(n.ast.value) == '_BlockResolver(self._validate_blk)' for n in gi.nodes if n.kind == 'stmt') \
+            and any(isinstance(n.ast, ast.Assign) and norm(n.ast.targets[0]) == 'self.resolve_name' and
+                    norm(n.ast.value) == 'self._resolver.register' for n in gi.nodes if n.kind == 'stmt')
+        ck.ob(R5, f"{ci.fid} :: resolver wiring", ok,
+              "names are resolved with _validate_blk (creates '_ctrl' / inverters on demand); "
+              "resolve_name is the resolver's register" if ok else
+              "the resolver is not wired to _validate_blk / resolve_name", ci, ci.node)
+        nreg = 0
+        for fi, call in call_sites(ck, 'resolve_name', include_demo=True):
+            nreg += 1
+            g = ck.cfg(fi.fid, 'M0')
+            node = g.node_of(call)[0]
+            ok = len(call.args) >= 2 and isinstance(call.args[1], ast.Constant) and \
+                isinstance(call.args[1].value, str)
+            why = "unrecognised call shape"
+            if ok:
+                obj, attr = norm(call.args[0]), call.args[1].value
+                assigned = nodes_where(g, lambda n: isinstance(n.ast, ast.Assign) and
+                                       norm(n.ast.targets[0]) == f"{obj}.{attr}" and g.dominates(n, node))
+                ns = nodes_where(g, lambda n: isinstance(n.ast, ast.Assign) and
+                                 norm(n.ast.targets[0]) == obj and isinstance(n.ast.value, ast.Call)
+                                 and norm(n.ast.value.func) == 'types.SimpleNamespace' and
+                                 any(k.arg == attr for k in n.ast.value.keywords) and g.dominates(n, node))
+                ok = bool(assigned) or bool(ns)
+                why = (f"resolve_name({obj}, {attr!r}) follows the assignment of {obj}.{attr}" if ok else
+                       f"resolve_name({obj}, {attr!r}) names an attribute that this code did not "
+                       f"assign on {obj} (the resolver would read/patch the wrong attribute)")
+            ck.ob(R5, f"{fi.fid} :: {norm1(call)}", ok, why, fi, call)
+        ck.need(R5, nreg >= 4, "fewer resolve_name registrations than confirmed by hand")
+        # type restrictions of the registrations that the property names
+        ev = prog.func('block:Event.__init__')
+        calls = [c for f, c in call_sites(ck, 'resolve_name') if f is ev]
+        ok = bool(calls) and (len(calls[0].args) >= 3 and norm(calls[0].args[2]) == 'SBlock' or
+                              any(k.arg == 'block_type' and norm(k.value) == 'SBlock' for k in calls[0].keywords))
+        ck.ob(R5, f"{ev.fid} :: destination kind", ok,
+              "an event destination must be an SBlock" if ok else
+              "an event destination of the wrong kind is not refused", ev, calls[0] if calls else ev.node)
 
-    # ------------------------------------------------------------------ R15.7
-    _r15_7(ck, R7)
+    with ck.section('R15.7'):
+        # ------------------------------------------------------------------ R15.7
+        _r15_7(ck, R7)
 
-    # ------------------------------------------------------------------ R15.6
-    isig = prog.func('block:CBlock.input_signature')
-    gc = prog.func('block:CBlock.get_conf')
+    with ck.section('R15.6'):
+        # ------------------------------------------------------------------ R15.6
+        isig = prog.func('block:CBlock.input_signature')
+        gc = prog.func('block:CBlock.get_conf')
 
-    def comp_info(fi):
-        for x in own_nodes(fi.node):
-            if isinstance(x, ast.DictComp):
-                gen = x.generators[0]
-                it = norm(gen.iter)
-                disc = None
-                if isinstance(x.value, ast.IfExp):
-                    disc = norm(x.value.test)
-                return it, disc, x
-        return None, None, None
-    i1, d1, _ = comp_info(isig)
-    i2, d2, x2 = comp_info(gc)
-    ok = i1 == i2 == 'self.inputs.items()' and d1 is not None and d1 == d2 and 'tuple' in d1
-    ck.ob(R6, "input_signature / get_conf", ok,
-          f"both iterate self.inputs.items() and discriminate with `{d1}`" if ok else
-          f"the two descriptions use different iterations/discriminators ({i1!r}/{d1!r} vs "
-          f"{i2!r}/{d2!r})", isig, isig.node)
-    g = ck.cfg(gc.fid, 'M0')
-    w = nodes_where(g, lambda n: n.kind == 'stmt' and any(is_const(t.slice, 'inputs')
-                                                         for t, k, s in subscript_writes(n.ast)))
-    ok = len(w) == 1 and g.has_guard(w[0], 'self.circuit.is_finalized()', True)
-    ck.ob(R6, f"{gc.fid} :: inputs only when finalized", ok,
-          "the inputs are reported only for a finalized circuit (names are resolved then)" if ok
-          else "get_conf reports inputs of an unfinalized circuit", gc, w[0].ast if w else gc.node)
-    g = ck.cfg(cn.fid, 'M0')
-    ws = nodes_where(g, lambda n: n.kind == 'stmt' and any(norm(t.value) == 'self.inputs'
-                                                          for t, k, s in subscript_writes(n.ast)))
-    unnamed = [w for w in ws if is_const(w.ast.targets[0].slice, '_')]
-    named = [w for w in ws if w not in unnamed]
-    ok = len(unnamed) == 1 and norm(unnamed[0].ast.value) == 'args' and len(named) == 1 and \
-        isinstance(named[0].ast.value, ast.IfExp) and norm(named[0].ast.value.body) == 'tuple(inp)' \
-        and norm(named[0].ast.value.test) == '_is_multiple(inp)' and norm(named[0].ast.value.orelse) == 'inp'
-    ck.ob(R6, f"{cn.fid} :: stored shapes", ok,
-          "unnamed inputs are stored as a tuple under '_', named groups as tuples, single inputs "
-          "as they are" if ok else "connect() stores groups in a shape that input_signature / "
-          "get_conf / _finalize do not recognise as a group", cn, cn.node)
-    res_ = nodes_where(g, lambda n: isinstance(n.ast, ast.Raise) and g.has_guard(n, "'_' in kwargs", True),
-                       kinds=('stmt',))
-    ck.ob(R6, f"{cn.fid} :: reserved name", bool(res_),
-          "the input name '_' is refused as a keyword" if res_ else
-          "a named input '_' would silently replace the unnamed group", cn, cn.node)
-    multi = nodes_where(g, lambda n: isinstance(n.ast, ast.Raise) and
-                        g.has_guard(n, '_is_multiple(inp)', True), kinds=('stmt',))
-    ck.ob(R6, f"{cn.fid} :: unnamed inputs are single", bool(multi),
-          "a sequence among the unnamed inputs raises" if multi else
-          "a nested sequence among the unnamed inputs is accepted", cn, cn.node)
+        def comp_info(fi):
+            for x in own_nodes(fi.node):
+                if isinstance(x, ast.DictComp):
+                    gen = x.generators[0]
+                    it = norm(gen.iter)
+                    disc = None
+                    if isinstance(x.value, ast.IfExp):
+                        disc = norm(x.value.test)
+                    return it, disc, x
+            return None, None, None
+        i1, d1, _ = comp_info(isig)
+        i2, d2, x2 = comp_info(gc)
+        ok = i1 == i2 == 'self.inputs.items()' and d1 is not None and d1 == d2 and 'tuple' in d1
+        ck.ob(R6, "input_signature / get_conf", ok,
+              f"both iterate self.inputs.items() and discriminate with `{d1}`" if ok else
+              f"the two descriptions use different iterations/discriminators ({i1!r}/{d1!r} vs "
+              f"{i2!r}/{d2!r})", isig, isig.node)
+        g = ck.cfg(gc.fid, 'M0')
+        w = nodes_where(g, lambda n: n.kind == 'stmt' and any(is_const(t.slice, 'inputs')
+                                                             for t, k, s in subscript_writes(n.ast)))
+        ok = len(w) == 1 and g.has_guard(w[0], 'self.circuit.is_finalized()', True)
+        ck.ob(R6, f"{gc.fid} :: inputs only when finalized", ok,
+              "the inputs are reported only for a finalized circuit (names are resolved then)" if ok
+              else "get_conf reports inputs of an unfinalized circuit", gc, w[0].ast if w else gc.node)
+        g = ck.cfg(cn.fid, 'M0')
+        ws = nodes_where(g, lambda n: n.kind == 'stmt' and any(norm(t.value) == 'self.inputs'
+                                                              for t, k, s in subscript_writes(n.ast)))
+        unnamed = [w for w in ws if is_const(w.ast.targets[0].slice, '_')]
+        named = [w for w in ws if w not in unnamed]
+        ok = len(unnamed) == 1 and norm(unnamed[0].ast.value) == 'args' and len(named) == 1 and \
+            isinstance(named[0].ast.value, ast.IfExp) and norm(named[0].ast.value.body) == 'tuple(inp)' \
+            and norm(named[0].ast.value.test) == '_is_multiple(inp)' and norm(named[0].ast.value.orelse) == 'inp'
+        ck.ob(R6, f"{cn.fid} :: stored shapes", ok,
+              "unnamed inputs are stored as a tuple under '_', named groups as tuples, single inputs "
+              "as they are" if ok else "connect() stores groups in a shape that input_signature / "
+              "get_conf / _finalize do not recognise as a group", cn, cn.node)
+        res_ = nodes_where(g, lambda n: isinstance(n.ast, ast.Raise) and g.has_guard(n, "'_' in kwargs", True),
+                           kinds=('stmt',))
+        ck.ob(R6, f"{cn.fid} :: reserved name", bool(res_),
+              "the input name '_' is refused as a keyword" if res_ else
+              "a named input '_' would silently replace the unnamed group", cn, cn.node)
+        multi = nodes_where(g, lambda n: isinstance(n.ast, ast.Raise) and
+                            g.has_guard(n, '_is_multiple(inp)', True), kinds=('stmt',))
+        ck.ob(R6, f"{cn.fid} :: unnamed inputs are single", bool(multi),
+              "a sequence among the unnamed inputs raises" if multi else
+              "a nested sequence among the unnamed inputs is accepted", cn, cn.node)
 
 
 def _r15_7(ck, R7):
